@@ -48,6 +48,8 @@ func (k Keeper) PrepareCoinsToDistribute(sources []*types.Account, ctx sdk.Conte
 		var coinsToDistribute sdk.DecCoins
 		if source.Type == types.Main {
 			coinsToDistribute = k.prepareCoinToDistributeForMainAccount(ctx, states, subDistributorName)
+			// coins collected from the sources listed before are already on the main account but not in any state yet
+			coinsToDistribute = coinsToDistribute.Sub(allCoinsToDistribute)
 		} else {
 			coinsToDistribute = k.prepareCoinToDistributeForNotMainAccount(ctx, *source, states, subDistributorName)
 		}
